@@ -28,8 +28,8 @@
 (*     decrease 0; MoreThuente: strong Wolfe with its two factors); steps are positive;       *)
 (*   * it does not walk past a step at which its conditions are known to hold;               *)
 (*   * Backtracking only ever contracts (step *= ContractionFactor) and never asks for the    *)
-(*     gradient; Bisection never re-evaluates a step and stays inside its bracket once the    *)
-(*     bracket is closed; MoreThuente stays inside [MinimumStep, MaximumStep];                *)
+(*     gradient; Bisection stays below the largest trial step once a trial step was           *)
+(*     followed by a smaller one (bracket closed); MoreThuente stays inside [MinimumStep, MaximumStep];                *)
 (*   * LinesearchMethod announces MajorIteration only after completing the location (the      *)
 (*     complement of what was evaluated), at the accepted point, with the accepted value;    *)
 (*   * failures surface as the documented errors (ErrLinesearcherFailure, ErrLinesearcherBound*)
@@ -143,7 +143,7 @@ IterCont(e) ==
          ELSE \* a new trial step
               /\ May(e.steppos)
               /\ (ls = "backtracking" => e.res = "F" /\ MayNot(e.armijo) /\ May(e.less) /\ May(e.contr))
-              /\ (ls = "bisection" => e.ndup = 0 /\ (bounded => e.nabove > 0))
+              /\ (ls = "bisection" => (bounded => e.nabove > 0))
               /\ (ls = "morethuente" => May(e.inb))
               /\ bounded' = (bounded \/ e.nabove > 0)
               /\ ev' = {} /\ want' = OpSet(e.res) /\ ph' = "eval" /\ tinyp' = e.tiny
